@@ -241,6 +241,34 @@ def _mul_operands(e):
     return None
 
 
+def _map_expr(e, fn):
+    """rebuild an origin expression, replacing every node for which fn returns a value"""
+    r = fn(e)
+    if r is not None:
+        return r
+    tag = e[0]
+    m = lambda x: _map_expr(x, fn)
+    if tag == "call":
+        return (tag, e[1], [m(x) for x in e[2]]) + tuple(e[3:])
+    if tag == "callv":
+        return (tag, m(e[1]), [m(x) for x in e[2]]) + tuple(e[3:])
+    if tag == "bin":
+        return (tag, e[1], m(e[2]), m(e[3]))
+    if tag in ("un", "cast"):
+        return (tag, e[1], m(e[2])) + tuple(e[3:])
+    if tag == "agg":
+        return (tag, e[1], e[2], {k: m(v) for k, v in e[3].items()})
+    if tag in ("tuple", "array", "phi"):
+        return (tag, [m(x) for x in e[1]])
+    if tag == "closure":
+        return (tag, e[1], [m(x) for x in e[2]])
+    if tag in ("field", "as", "discr", "cindex", "proj", "repeat"):
+        return (tag, m(e[1])) + tuple(e[2:])
+    if tag == "index":
+        return (tag, m(e[1]), m(e[2]))
+    return e
+
+
 def _has(e, pred):
     hit = []
     walk_expr(e, lambda n: hit.append(n) if pred(n) else None)
@@ -407,13 +435,41 @@ def run(ctx):
         return res
 
     def per_element_rule(f, key, with_scale):
+        """the element-wise rewrite, written as a `for` loop over iter_mut().enumerate() or as `.for_each(|(index, x)| ..)`"""
+        host, via, caps = f, "loop", None
         calls = [(bb, t, c) for bb, t, c in f.calls() if c and callee_path(c) == apdi.path]
+        if not calls:
+            for bb, t, c in f.calls():
+                if c and c.get("name") == "for_each" and len(t["args"]) == 2:
+                    recv, clo = fn_expr_operand(f, t["args"][0]), fn_expr_operand(f, t["args"][1])
+                    whole = _has(recv, lambda n: n[0] == "call" and n[1].endswith("::enumerate")) and _has(recv, lambda n: n[0] == "call" and n[1].endswith("::iter_mut"))
+                    g = L.by_path.get(clo[1]) if clo[0] == "closure" else None
+                    if g is not None and whole and not f.control_deps(bb, transitive=True):
+                        gc = [(b2, t2, c2) for b2, t2, c2 in g.calls() if c2 and callee_path(c2) == apdi.path]
+                        if gc:
+                            host, via, caps, calls = g, "for_each", clo[2], gc
         ok = False
-        detail = {"calls": len(calls)}
+        detail = {"calls": len(calls), "form": via}
         if len(calls) == 1:
             bb, t, c = calls[0]
-            args = [fn_expr_operand(f, a) for a in t["args"]]
-            elem_ok = lambda x: _has(x, lambda n: n[0] == "call" and n[1].endswith("Iterator>::next"))
+
+            def lift(e):
+                """captures of the for_each closure are read in the enclosing function"""
+                if caps is None:
+                    return e
+
+                def sub(n):
+                    if n[0] == "field" and str(n[2]).startswith("cap") and n[1][0] == "param" and n[1][1] == 1:
+                        return caps[int(n[2][3:])]
+                    return None
+
+                return _map_expr(e, sub)
+
+            args = [lift(fn_expr_operand(host, a)) for a in t["args"]]
+            if via == "loop":
+                elem_ok = lambda x: _has(x, lambda n: n[0] == "call" and n[1].endswith("Iterator>::next"))
+            else:
+                elem_ok = lambda x: _has(x, lambda n: n[0] == "param" and n[1] == 2)
             if with_scale:
                 ops = _mul_operands(args[0])
                 a0 = bool(ops) and any(_is_field(_strip(o), "scale") for o in ops) and any(elem_ok(o) for o in ops)
@@ -426,25 +482,25 @@ def run(ctx):
             # (the call result is a temporary that is then stored through the element reference)
             dest = t["dest"]
             stores = []
-            for i, j, s in f.stmts():
-                if s["k"] == "assign" and "*" in s["p"]["pr"] and s["rv"]["k"] == "use" and (s["rv"]["o"].get("m") or s["rv"]["o"].get("c") or {}).get("l") == dest["l"]:
-                    stores.append((i, s))
+            for i, j, s_ in host.stmts():
+                if s_["k"] == "assign" and "*" in s_["p"]["pr"] and s_["rv"]["k"] == "use" and (s_["rv"]["o"].get("m") or s_["rv"]["o"].get("c") or {}).get("l") == dest["l"]:
+                    stores.append((i, s_))
             if "*" in dest["pr"]:
-                dest_ok = elem_ok(fn_expr_operand(f, {"c": {"l": dest["l"], "pr": []}}))
+                dest_ok = elem_ok(fn_expr_operand(host, {"c": {"l": dest["l"], "pr": []}}))
             else:
-                dest_ok = len(stores) == 1 and elem_ok(fn_expr_operand(f, {"c": {"l": stores[0][1]["p"]["l"], "pr": []}})) and stores[0][0] == t["t"]
+                dest_ok = len(stores) == 1 and elem_ok(fn_expr_operand(host, {"c": {"l": stores[0][1]["p"]["l"], "pr": []}})) and stores[0][0] == t["t"]
             # unconditional inside the loop: only the loop's own `next() is Some` test controls it
-            deps = f.control_deps(bb, transitive=False)
+            deps = host.control_deps(bb, transitive=False)
             conds = []
             for sb, tgt in deps:
-                tt = f.blocks[sb]["t"]
-                e = fn_expr_operand(f, tt["d"]) if tt["k"] == "switch" else ("x",)
-                if e[0] == "discr" and elem_ok(e):
+                tt = host.blocks[sb]["t"]
+                e = fn_expr_operand(host, tt["d"]) if tt["k"] == "switch" else ("x",)
+                if via == "loop" and e[0] == "discr" and elem_ok(e):
                     continue
                 conds.append(str(e)[:80])
             no_skip = not [1 for bb2, t2, c2 in f.calls() if c2 and c2.get("name") in LENGTH_CHANGING]
             ok = a0 and names == want and idx_ok and dest_ok and not conds and no_skip
-            detail = {"scaled_element": a0, "args": names, "index_from_enumerate": idx_ok, "stored_to_same_element": dest_ok, "conditions": conds, "no_length_changing_adaptor": no_skip}
+            detail = {"form": via, "scaled_element": a0, "args": names, "index_from_enumerate": idx_ok, "stored_to_same_element": dest_ok, "conditions": conds, "no_length_changing_adaptor": no_skip}
         res.site(key, True, dict(detail, verdict="ok" if ok else "VIOLATION"))
         if not ok:
             res.find(key, f.loc(), "%s does not rewrite every sample with apply_phase_and_detuning_at_index(%ssample, phase, detuning, sample_rate, index) unconditionally (%s)" % (f.path[len(B):], "scale * " if with_scale else "", detail), "a Gaussian with scale 0.5 keeps some samples unscaled, or the phase is applied to every other sample only")
@@ -537,9 +593,13 @@ def run(ctx):
             sw2 = [(sb, tgt) for sb, tgt in f.control_deps(sbb, transitive=False)]
             cond_ok = False
             if len(sw) == 1 and len(sw2) == 1 and sw[0][0] == sw2[0][0] and sw[0][1] != sw2[0][1]:
-                d = fn_expr_operand(f, f.blocks[sw[0][0]]["t"]["d"])
+                tt = f.blocks[sw[0][0]]["t"]
+                d = fn_expr_operand(f, tt["d"])
                 d = _strip(d)
-                cond_ok = d[0] == "bin" and d[1] == "Eq" and any(from_resolved(x, "detuning") for x in (d[2], d[3])) and any(x[0] == "const" and float(x[1]) == 0.0 for x in (d[2], d[3]))
+                # the flat construction sits on the `detuning == 0.0` side (true side of Eq, false side of Ne)
+                false_targets = [target for v, target in tt["ts"] if int(v) == 0]
+                flat_on_true = bool(false_targets) and sw[0][1] not in false_targets
+                cond_ok = d[0] == "bin" and d[1] in ("Eq", "Ne") and (flat_on_true == (d[1] == "Eq")) and any(from_resolved(x, "detuning") for x in (d[2], d[3])) and any(x[0] == "const" and float(x[1]) == 0.0 for x in (d[2], d[3]))
             if wname == "Flat":
                 iq = fe[3]["iq"]
                 f_ok = iq[0] == "call" and iq[1] == ap.path and from_resolved(iq[2][1], "phase")
